@@ -215,6 +215,20 @@ class Obligation:
 
 
 _OBLS: list[Obligation] = []
+def _open_clauses_file() -> str:
+    # shared by the worker processes of one run (they are children of the same driver process)
+    return os.path.join(os.environ.get('PYVC_TMP', '/var/tmp'), 'open_clauses.%d' % os.getppid())
+
+
+def _sync_open_clauses():
+    try:
+        with open(_open_clauses_file()) as f:
+            _OPEN_IN_THIS_WORKER.update(l.strip() for l in f if l.strip())
+    except OSError:
+        pass
+
+
+_OPEN_IN_THIS_WORKER: set = set()      # clause names with an instance left open (sat / unknown) by this process
 _NO_RETRY: list[str] = []
 _AXIOMS: list = []
 _TIMEOUT_MS = 10000
@@ -492,6 +506,11 @@ def _check_one(i: int):
             except Exception:
                 mtxt = None
         return i, ('sat' if r == z3.sat else 'unknown'), mtxt, time.time() - t0, 'z3 (short budget: obligation of an open known finding)', (None if r == z3.sat else s.reason_unknown())
+    _sync_open_clauses()
+    if ob.name in _OPEN_IN_THIS_WORKER:
+        # another instance of this clause already stayed open in this worker after the full effort: the clause is open whatever this
+        # instance says; only the cheap slice phases above were tried for it
+        return i, 'unknown', None, time.time() - t0, 'z3 (slices only: the clause is already open in this worker)', 'clause already open'
     if quant_ax and _has_quantifier(ob.goal):
         # a quantified goal may need an instance of a quantified axiom on its skolem terms: a short first attempt with all axioms
         s0q, r0q = _solve(ob, _AXIOMS, _ground_injectivity(list(ob.pc) + [ob.goal]), min(_TIMEOUT_MS, 3000))
@@ -526,6 +545,10 @@ def _check_one(i: int):
         if any(_re.fullmatch(pat, ob.name) for pat in _NO_RETRY):
             # an obligation of a listed, open known finding: it is expected to stay open; do not spend the retry budgets on it
             return i, verdict, None, time.time() - t0, solver, reason
+        if ob.name in _OPEN_IN_THIS_WORKER:
+            # another instance of this clause already stayed open in this worker after the full effort: the clause is open whatever
+            # this instance says, so the expensive tail (leave-one-out, 3x budget, cvc5) is not repeated for every path
+            return i, verdict, None, time.time() - t0, solver + ' (tail phases skipped: the clause is already open)', reason
         if quant_ax:
             # the quantified axioms themselves (injectivity of the declared f-string templates): needed when the application that
             # must be inverted occurs under a quantifier of the goal, where no ground instance exists before skolemisation
@@ -561,6 +584,13 @@ def _check_one(i: int):
                     verdict, solver = 'unsat', 'cvc5'
             except Exception:
                 pass
+    if verdict != 'unsat':
+        _OPEN_IN_THIS_WORKER.add(ob.name)
+        try:
+            with open(_open_clauses_file(), 'a') as f:
+                f.write(ob.name + '\n')
+        except OSError:
+            pass
     return i, verdict, model, time.time() - t0, solver, reason
 
 
